@@ -24,7 +24,15 @@ func (c *PointerCodec) New(r *ReadBuf) unsafe.Pointer {
 }
 
 func (c *PointerCodec) Omit(p unsafe.Pointer) bool {
-	return *(*unsafe.Pointer)(p) == nil
+	pp := *(*unsafe.Pointer)(p)
+	if pp == nil {
+		return true
+	}
+	// A pointer to a nil pointer has no non-null representation either.
+	if inner, ok := c.Codec.(*PointerCodec); ok {
+		return inner.Omit(pp)
+	}
+	return false
 }
 
 func (c *PointerCodec) Write(w *WriteBuf, p unsafe.Pointer) {
@@ -32,6 +40,12 @@ func (c *PointerCodec) Write(w *WriteBuf, p unsafe.Pointer) {
 	// need to worry about writing the union selector.
 	pp := *(*unsafe.Pointer)(p)
 	if pp == nil {
+		switch c.Codec.(type) {
+		case *arrayCodec, *MapCodec:
+			// Pointers to slices and maps aren't nullable in the schema, so
+			// a nil pointer is written as an empty array or map.
+			w.Varint(0)
+		}
 		return
 	}
 	c.Codec.Write(w, pp)
